@@ -82,8 +82,12 @@ func RenderQuery(prelude []string, prefix []LogItem, goal Term, extra string) st
 			fmt.Fprintf(&sb, "(assert %s)\n", it.T.S)
 		}
 	}
-	fmt.Fprintf(&sb, "(assert (not %s))\n(check-sat)\n(get-model)\n", goal.S)
-	return sb.String()
+	body := sb.String()
+	var lem strings.Builder
+	for _, w := range []int{64, 32} {
+		lem.WriteString(MulLemmas(body+goal.S, w))
+	}
+	return body + lem.String() + fmt.Sprintf("(assert (not %s))\n(check-sat)\n(get-model)\n", goal.S)
 }
 
 type solverCmd struct {
@@ -193,6 +197,37 @@ func (s *Solver) Solve(name, query string) *SolveResult {
 	}
 	s.mu.Unlock()
 	if !s.KeepSMT && res.Status == "unsat" {
+		os.Remove(file)
+	}
+	return res
+}
+
+// SolveQuick runs only the first stage (one solver, short limit); used for
+// relaxed queries whose `unsat` is conclusive and whose other answers are not.
+func (s *Solver) SolveQuick(name, query string) *SolveResult {
+	h := fmt.Sprintf("%x", sha256.Sum256([]byte(query)))[:24]
+	s.mu.Lock()
+	if r, ok := s.cache[h]; ok {
+		s.mu.Unlock()
+		return r
+	}
+	s.Queries++
+	s.mu.Unlock()
+	s.Parallel <- struct{}{}
+	defer func() { <-s.Parallel }()
+	file := filepath.Join(s.Dir, "q-"+h+".smt2")
+	if err := os.WriteFile(file, []byte(query), 0o644); err != nil {
+		return &SolveResult{Status: "error", Output: err.Error()}
+	}
+	res := runOne(context.Background(), solverCmds[0], file, s.Quick)
+	s.mu.Lock()
+	s.cache[h] = res
+	if res.Status == "unsat" {
+		s.Stats[res.Solver]++
+		s.Time[res.Solver] += res.Seconds
+	}
+	s.mu.Unlock()
+	if !s.KeepSMT {
 		os.Remove(file)
 	}
 	return res
